@@ -10,8 +10,7 @@ FUNCTIONS = ['frappy.client.SecopClient.{__txthread,__rxthread,queue_request,get
 ASSUMPTIONS = ['granularity: one iteration of the transmit loop / receive loop is one atomic step; the order of steps, the reply that arrives '
                '(matching reply, error reply, unrelated update, unknown message, reply nobody asked for) and the request mix (equal and distinct keys, '
                'unknown action) are chosen by symbolic selectors; <= 3 requests, 4 (quick) / 5 (thorough) steps',
-               'pre-emption INSIDE a loop iteration (e.g. between the active_requests test and the insert into pending) and real thread shutdown '
-               'cannot be exhibited by this technique and are not claimed',
+               'pre-emption inside a loop iteration and the real thread shutdown are explored by harness/C11_races.py (real threads, symbolic schedules)',
                'Event.wait is virtual: a wait on an unset event is an expired time-out']
 REQUIRED_TAGS = ['completed', 'parked', 'released-by-disconnect', 'timeout']
 LIMITS = {'quick': {'max_paths': 40000, 'max_s': 150}, 'thorough': {'max_paths': 400000, 'max_s': 900}}
